@@ -47,6 +47,14 @@ type UnexpOnly struct {
 	a any
 }
 
+// an exported field and an unexported twin that differs from it only in letter case
+type UnexpTwin struct {
+	name any
+	Name any
+	ID   any
+	id   any
+}
+
 var (
 	tAny     = reflect.TypeOf((*any)(nil)).Elem()
 	tDecimal = reflect.TypeOf(decimal.Decimal{})
@@ -224,6 +232,8 @@ func structType(d *D) reflect.Type {
 			return reflect.TypeOf(UnexpA{})
 		case len(d.Fs) == 1 && d.Fs[0].Name == "a" && d.Fs[0].Iface:
 			return reflect.TypeOf(UnexpOnly{})
+		case len(d.Fs) == 4 && d.Fs[0].Name == "name" && d.Fs[1].Name == "Name" && d.Fs[2].Name == "ID" && d.Fs[3].Name == "id":
+			return reflect.TypeOf(UnexpTwin{})
 		}
 		panic("structType: unsupported unexported layout")
 	}
@@ -302,6 +312,8 @@ func buildV(d *D) reflect.Value {
 			v.Set(reflect.ValueOf(UnexpA{A: Build(d.Fs[0].V), b: Build(d.Fs[1].V)}))
 		case reflect.TypeOf(UnexpOnly{}):
 			v.Set(reflect.ValueOf(UnexpOnly{a: Build(d.Fs[0].V)}))
+		case reflect.TypeOf(UnexpTwin{}):
+			v.Set(reflect.ValueOf(UnexpTwin{name: Build(d.Fs[0].V), Name: Build(d.Fs[1].V), ID: Build(d.Fs[2].V), id: Build(d.Fs[3].V)}))
 		default:
 			for i, f := range d.Fs {
 				setSlot(v.Field(i), f.V)
